@@ -71,13 +71,12 @@ pub fn for_each_space(ctx: &Ctx, f: &(dyn Fn(&RefPacket, &dyn Fn() -> Value, &mu
     ctx.space("16 KiB straddle: first occurrence of a shared name at every offset 16360..=16400 x 4 later-use variants", cases.len() as u64, "complete");
     ctx.sample(json!({"kind": "straddle", "first_at": 16384, "variant": 1}));
     // long names and deep chains
-    let mut longs = gen::long_name_packets();
-    longs.extend(gen::many_and_sized_packets());
+    let longs = long_family();
     let lidx: Vec<usize> = (0..longs.len()).collect();
     par_shards(ctx, &lidx, |i, t: &mut Tally| {
         f(&longs[*i], &|| json!({"kind": "long", "index": i}), t);
     });
-    ctx.space("long names: 240..=255-byte names sharing suffixes across question/owner/RDATA of NS, MX, SOA, SRV and PTR; chains of 20..126 owners each extending the previous by one label", longs.len() as u64, "complete");
+    ctx.space("long names: 240..=255-byte names sharing suffixes across question/owner/RDATA of NS, MX, SOA, SRV and PTR; chains of 20..126 owners each extending the previous by one label; many-entry and size-ladder packets; the full size sweep (every string length 0..=255, tail length 0..=600, label count 1..=127, label length 1..=63, name length 3..=255, list sizes, 2..400 distinct repeated names)", longs.len() as u64, "complete");
     // big messages
     let bigs: Vec<(usize, usize)> = vec![(10, 1500), (20, 1600), (30, 2000), (31, 2050), (60, 1000), (120, 500), (300, 180)];
     par_shards(ctx, &bigs, |(n, each), t: &mut Tally| {
@@ -87,12 +86,19 @@ pub fn for_each_space(ctx: &Ctx, f: &(dyn Fn(&RefPacket, &dyn Fn() -> Value, &mu
     ctx.space("large messages: 7 packets of 15-65 KiB with names shared throughout", bigs.len() as u64, "complete");
 }
 
+pub fn long_family() -> Vec<RefPacket> {
+    let mut longs = gen::long_name_packets();
+    longs.extend(gen::many_and_sized_packets());
+    longs.extend(gen::size_sweep_packets());
+    longs
+}
+
 pub fn case_packet(case: &Value) -> Option<RefPacket> {
     let g = |k: &str| case[k].as_u64().unwrap_or(0);
     Some(match case["kind"].as_str()? {
         "sharing" => gen::sharing_case(g("slots") as usize, g("index")),
         "case" => gen::case_sharing_case(g("slots") as usize, g("index")),
-        "long" => gen::long_name_packets().into_iter().nth(g("index") as usize)?,
+        "long" => long_family().into_iter().nth(g("index") as usize)?,
         "straddle" => gen::straddle_packet(g("first_at") as usize, g("variant") as usize),
         "big" => gen::big_shared_packet(g("n") as usize, g("each") as usize),
         "packet" => serde_json::from_value(case["packet"].clone()).ok()?,
